@@ -222,6 +222,9 @@ def normalise(prog, recorded):
         still = any(_strip_generics(_callee_def(t)) == _strip_generics(n) for fn, P in prog.bodies.items() if fn != n for _, t in P.calls())
         if sites and not still:
             del prog.bodies[n]
+            if not hasattr(prog, "inlined_into") or prog.inlined_into is None:
+                prog.inlined_into = {}
+            prog.inlined_into[n] = sorted(callers)
         report.append({"function": n, "call_sites_inlined": sites, "callers": sorted(callers)[:6], "removed_from_program": bool(sites and not still)})
     for n in sorted(rec | (as_values & new)):
         report.append({"function": n, "call_sites_inlined": 0, "left_alone": "recursive" if n in rec else "used as a value"})
